@@ -1,3 +1,837 @@
-// Kani harnesses (child module of crates/axmos-db/src/storage/tuple.rs).  See /verif/HARNESS_GUIDE.md
+// Kani harnesses for C18 (row versions decode to the right values), plus C03.delete_stamp and C13.trim_horizon.
+// Child module of crates/axmos-db/src/storage/tuple.rs (sees its private items).  See /verif/HARNESS_GUIDE.md
 #![allow(unused_imports, dead_code, clippy::all)]
 use super::*;
+use crate::schema::base::Column;
+use crate::types::{Float64, Int32, Int64, bool::Bool};
+use std::collections::hash_map::RandomState;
+
+// ---------------------------------------------------------------------------------------------
+// helpers
+// ---------------------------------------------------------------------------------------------
+/// Result -> Option without running the error's drop glue (io::Error / dyn Error drop glue explodes in CBMC).
+fn okf<T, E>(r: Result<T, E>) -> Option<T> {
+    match r {
+        Ok(v) => Some(v),
+        Err(e) => {
+            std::mem::forget(e);
+            None
+        }
+    }
+}
+/// a `RandomState` with fixed keys: `RandomState::new()` reaches getrandom (unsupported by Kani)
+fn fixed_state() -> RandomState {
+    unsafe { std::mem::transmute::<[u64; 2], RandomState>([0, 0]) }
+}
+fn col(k: DataTypeKind) -> Column {
+    Column { dtype: k as u8, name: String::new(), default: None, is_non_null: false }
+}
+/// Schema with one key column (the first) over the given columns, built from its crate-visible fields (the name
+/// index is not used by any function under check).  The `columns` Vec is backed by the caller's typed
+/// `[Column; N]` local instead of a heap byte block: CBMC then keeps every `dtype` a constant during symbolic
+/// execution (a Vec buffer of 3 columns is a 144-byte malloc object, above CBMC's field-sensitivity limit: every
+/// `match kind` would be explored with a non-constant kind, Blob/VarInt loops included).  The Schema is never
+/// dropped or grown (ManuallyDrop).
+fn schema_over<const N: usize>(cols: &mut [Column; N]) -> std::mem::ManuallyDrop<Schema> {
+    let columns = unsafe { Vec::from_raw_parts(cols.as_mut_ptr(), N, N) };
+    std::mem::ManuallyDrop::new(Schema {
+        columns,
+        num_keys: 1,
+        table_constraints: None,
+        column_index: HashMap::with_hasher(fixed_state()),
+        table_indexes: None,
+    })
+}
+// `Column::datatype` stub for harnesses whose schema has columns of ONE kind only (Int).
+// Why: `schema.value(i).ok_or(..)?` (the lookup used by key_with/value_with/parse_version/parse_for_snapshot/
+// vaccum_with/add_version_with) moves the `&Column` through two niche-encoded enums (Result, ControlFlow); CBMC's
+// symbolic execution then no longer knows which column the reference designates, `self.dtype` stops being a
+// constant, every arm of the following `match kind` is explored (Blob/VarInt loops included; +10 s symex per lookup)
+// and, worse, the cursor returned by `deserialize` becomes symbolic, so loops bounded by the cursor are unwound
+// to the limit.  With all columns of kind Int the stub `|_| Int` is exact; `c18_column_datatype` checks that
+// the real accessor returns the declared kind.
+fn stub_dt_int(_c: &Column) -> DataTypeKind {
+    DataTypeKind::Int
+}
+/// a Row over the caller's typed array (same reason as `schema_over`: value discriminants stay constants)
+fn row_over<const N: usize>(vals: &mut [DataType; N]) -> std::mem::ManuallyDrop<Row> {
+    let b: Box<[DataType]> = unsafe { Box::from_raw(&mut vals[..] as *mut [DataType]) };
+    std::mem::ManuallyDrop::new(Row(b))
+}
+#[repr(align(8))]
+struct A8<const N: usize>([u8; N]);
+
+fn rd_u64(d: &[u8], o: usize) -> u64 {
+    u64::from_le_bytes([d[o], d[o + 1], d[o + 2], d[o + 3], d[o + 4], d[o + 5], d[o + 6], d[o + 7]])
+}
+fn rd_u32(d: &[u8], o: usize) -> u32 {
+    u32::from_le_bytes([d[o], d[o + 1], d[o + 2], d[o + 3]])
+}
+const P63: u64 = 1u64 << 63;
+
+// ---------------------------------------------------------------------------------------------
+// 1. header codec
+// ---------------------------------------------------------------------------------------------
+fn header_rt(version: u8, xmin: u64, xmax: Option<u64>, off: usize) -> (TupleHeader, usize, usize) {
+    let mut buf = A8([0u8; 48]);
+    let end = TupleHeader::new(version, xmin, xmax).write_to(&mut buf.0, off);
+    let (r, e2) = TupleHeader::read_from(&buf.0, off);
+    (r, end, e2)
+}
+// @obl harness=c18_header_rw id=C18.header_codec[TupleHeader/xmax<2^63] tier=quick funcs="TupleHeader::new,TupleHeader::write_to,TupleHeader::read_from,TupleHeader::xmin,TupleHeader::xmax,TupleHeader::version" bounds="all u64 xmin, all u8 version, xmax None or any value < 2^63, start offset 0..=16 in an 8-aligned 48-byte buffer"
+#[kani::proof]
+#[kani::unwind(4)]
+fn c18_header_rw() {
+    let version: u8 = kani::any();
+    let xmin: u64 = kani::any();
+    let xm: u64 = kani::any();
+    let has: bool = kani::any();
+    let off: usize = kani::any();
+    kani::assume(off <= 16);
+    kani::assume(xm < P63);
+    let xmax = if has { Some(xm) } else { None };
+    kani::cover!(true, "reach");
+    let (r, end, e2) = header_rt(version, xmin, xmax, off);
+    assert!(TupleHeader::SIZE == 24, "tuple_header_size_is_24");
+    assert!(end == ((off + 7) & !7) + 24 && e2 == end, "header_cursor");
+    assert!(r.xmin() == xmin, "xmin_roundtrip");
+    assert!(r.version() == version, "version_roundtrip");
+    assert!(r.xmax() == xmax, "xmax_roundtrip");
+}
+// @obl harness=c18_header_rw_big_xmax id=C18.header_codec[TupleHeader/xmax>=2^63] tier=off funcs="TupleHeader::new,TupleHeader::write_to,TupleHeader::read_from,TupleHeader::xmax" bounds="xmax = Some(v), v >= 2^63 (stored as i64: negative = not deleted)"
+#[kani::proof]
+#[kani::unwind(4)]
+fn c18_header_rw_big_xmax() {
+    let version: u8 = kani::any();
+    let xmin: u64 = kani::any();
+    let xm: u64 = kani::any();
+    kani::assume(xm >= P63);
+    kani::cover!(true, "reach");
+    let (r, _, _) = header_rt(version, xmin, Some(xm), 0);
+    assert!(r.xmax() == Some(xm), "xmax_roundtrip");
+}
+// @obl harness=c18_delta_header_rw id=C18.header_codec[DeltaHeader] tier=quick funcs="DeltaHeader::new,DeltaHeader::write_to,DeltaHeader::read_from,DeltaHeader::xmin,DeltaHeader::version" bounds="all u64 xmin, all u8 version, start offset 0..=16 in an 8-aligned 48-byte buffer"
+#[kani::proof]
+#[kani::unwind(4)]
+fn c18_delta_header_rw() {
+    let version: u8 = kani::any();
+    let xmin: u64 = kani::any();
+    let off: usize = kani::any();
+    kani::assume(off <= 16);
+    let mut buf = A8([0u8; 48]);
+    kani::cover!(true, "reach");
+    let end = DeltaHeader::new(version, xmin).write_to(&mut buf.0, off);
+    let (r, e2) = DeltaHeader::read_from(&buf.0, off);
+    assert!(DeltaHeader::SIZE == 16, "delta_header_size_is_16");
+    assert!(end == ((off + 7) & !7) + 16 && e2 == end, "header_cursor");
+    assert!(r.xmin() == xmin, "xmin_roundtrip");
+    assert!(r.version() == version, "version_roundtrip");
+}
+
+// ---------------------------------------------------------------------------------------------
+// 2. null bitmap
+// ---------------------------------------------------------------------------------------------
+// @obl harness=c18_null_bitmap id=C18.null_bitmap tier=quick funcs="TupleBuilder::set_null_bit,TupleReader::check_null" bounds="2-byte bitmap with arbitrary prior contents, every index i < 16, every other index j < 16, both flag values"
+#[kani::proof]
+#[kani::unwind(4)]
+fn c18_null_bitmap() {
+    let before: [u8; 2] = kani::any();
+    let mut bm = before;
+    let i: usize = kani::any();
+    let j: usize = kani::any();
+    let v: bool = kani::any();
+    kani::assume(i < 16 && j < 16 && j != i);
+    kani::cover!(true, "reach");
+    TupleBuilder::set_null_bit(&mut bm, i, v);
+    assert!(TupleReader::check_null(&bm, i) == v, "set_then_check_agree");
+    assert!(TupleReader::check_null(&bm, j) == TupleReader::check_null(&before, j), "other_bits_untouched");
+    let (a, b) = (u16::from_le_bytes(before), u16::from_le_bytes(bm));
+    assert!((a ^ b) & !(1u16 << i) == 0, "only_bit_i_changes");
+    assert!(((b >> i) & 1 == 1) == v, "bit_i_is_flag");
+}
+
+// ---------------------------------------------------------------------------------------------
+// 5. C03.delete_stamp
+// ---------------------------------------------------------------------------------------------
+/// a tuple whose 40 bytes (header + bitmap + one 8-byte key) are arbitrary; `delete` only looks at the header
+fn any_tuple40() -> (Tuple, [u8; 40]) {
+    let b: [u8; 40] = kani::any();
+    match okf(Tuple::from_slice_unchecked(&b)) {
+        Some(t) => (t, b),
+        None => {
+            kani::assume(false);
+            unreachable!()
+        }
+    }
+}
+fn tail_same(t: &Tuple, b: &[u8; 40]) -> bool {
+    let d = t.effective_data();
+    d.len() == 40 && rd_u64(d, 24) == rd_u64(b, 24) && rd_u64(d, 32) == rd_u64(b, 32)
+}
+// @obl harness=c03_delete_stamp id=C03.delete_stamp[xid<2^63] tier=quick funcs="Tuple::delete,Tuple::is_deleted,Tuple::xmax,TupleHeader::read_from,TupleHeader::write_to" bounds="40-byte tuple with arbitrary bytes (arbitrary header: live or already deleted), any xid < 2^63"
+#[kani::proof]
+#[kani::unwind(4)]
+fn c03_delete_stamp() {
+    let (mut t, b) = any_tuple40();
+    let xid: u64 = kani::any();
+    kani::assume(xid < P63);
+    let was = t.xmax();
+    let (xmin0, ver0) = (t.xmin(), t.version());
+    kani::cover!(true, "reach");
+    kani::cover!(was.is_some(), "reach_already_deleted");
+    let r = okf(t.delete(xid));
+    match was {
+        None => {
+            assert!(r.is_some(), "delete_live_tuple_ok");
+            assert!(t.xmax() == Some(xid), "delete_sets_xmax");
+        }
+        Some(_) => assert!(t.xmax() == was, "second_delete_keeps_first_xmax"),
+    }
+    assert!(t.xmin() == xmin0 && t.version() == ver0, "delete_keeps_xmin_and_version");
+    assert!(tail_same(&t, &b), "delete_touches_only_header");
+    std::mem::forget(t);
+}
+// @obl harness=c03_delete_stamp_big_xid id=C03.delete_stamp[xid>=2^63] tier=off funcs="Tuple::delete,Tuple::xmax" bounds="live 40-byte tuple, xid >= 2^63 (xmax stored as i64)"
+#[kani::proof]
+#[kani::unwind(4)]
+fn c03_delete_stamp_big_xid() {
+    let (mut t, _b) = any_tuple40();
+    let xid: u64 = kani::any();
+    kani::assume(xid >= P63);
+    kani::assume(t.xmax().is_none());
+    kani::cover!(true, "reach");
+    let _ = okf(t.delete(xid));
+    assert!(t.xmax() == Some(xid), "delete_sets_xmax");
+    std::mem::forget(t);
+}
+// @obl harness=c03_delete_twice_err id=C03.delete_stamp[already_deleted/err] tier=off funcs="Tuple::delete" bounds="40-byte tuple whose header already carries an xmax, any xid"
+#[kani::proof]
+#[kani::unwind(4)]
+fn c03_delete_twice_err() {
+    let (mut t, _b) = any_tuple40();
+    let xid: u64 = kani::any();
+    kani::assume(t.xmax().is_some());
+    kani::cover!(true, "reach");
+    let r = okf(t.delete(xid));
+    assert!(r.is_none(), "delete_of_deleted_tuple_is_err");
+    std::mem::forget(t);
+}
+
+// ---------------------------------------------------------------------------------------------
+// 3. build_layout: schema family  key BigInt | value0 K0 | value1 K1,  K in {BigInt, Int, Double, Bool},
+//    one shape per (K0, K1, NULL pattern); values symbolic.
+//    Split in three stages (build -> parse -> read in ONE harness ran out of memory in the probes, and
+//    parse + three reads in one harness takes 165-220 s):
+//      stage A  c18_build_<shape> : TupleBuilder::build writes exactly the reference layout below (bytes asserted)
+//      stage B  c18_parse_<shape> : on ANY buffer of that layout (symbolic header and value bytes, bitmap byte fixed
+//                                   to the shape's NULL pattern) parse_last_version records the reference cursors
+//      stage C  c18_read_<kind>, c18_read_key : for ANY buffer, ANY bitmap byte and ANY recorded cursor,
+//                                   value_with / key_with return NULL iff flagged, else exactly the stored bits at
+//                                   the cursor aligned to the kind (per kind, covers every layout of the family)
+//    A o B o C = what is read is what was put in.
+// ---------------------------------------------------------------------------------------------
+use DataTypeKind as K;
+/// reference model: (align, size) of the fixed-size kinds of the family
+fn kinfo(k: K) -> (usize, usize) {
+    match k {
+        K::BigInt | K::Double => (8, 8),
+        K::Int => (4, 4),
+        K::Bool => (1, 1),
+        _ => unreachable!(),
+    }
+}
+fn al(c: usize, a: usize) -> usize {
+    (c + a - 1) / a * a
+}
+/// reference layout: header 0..24 | bitmap byte 24 | key BigInt 32..40 | non-NULL values, each aligned to its kind.
+/// A NULL value occupies nothing.  `p*` = running cursor before the value (this is what TupleLayout records as
+/// "offset": readers align it again), `o*` = aligned offset where the value's bytes are.
+struct RefLayout {
+    p0: usize,
+    o0: usize,
+    p1: usize,
+    o1: usize,
+    end: usize,
+}
+fn ref_layout(k0: K, n0: bool, k1: K, n1: bool) -> RefLayout {
+    let mut c = 40;
+    let p0 = c;
+    let o0 = if n0 { c } else { al(c, kinfo(k0).0) };
+    if !n0 {
+        c = o0 + kinfo(k0).1;
+    }
+    let p1 = c;
+    let o1 = if n1 { c } else { al(c, kinfo(k1).0) };
+    if !n1 {
+        c = o1 + kinfo(k1).1;
+    }
+    RefLayout { p0, o0, p1, o1, end: c }
+}
+/// the value of kind `k` whose stored bits are the low bytes of `raw`
+fn mk(k: K, raw: u64) -> DataType {
+    match k {
+        K::BigInt => DataType::BigInt(Int64(raw as i64)),
+        K::Int => DataType::Int(Int32(raw as u32 as i32)),
+        K::Double => DataType::Double(Float64(f64::from_bits(raw))),
+        K::Bool => DataType::Bool(Bool(raw & 1 == 1)),
+        _ => unreachable!(),
+    }
+}
+/// the bits a value of kind `k` built from `raw` must occupy in the tuple
+fn want(k: K, raw: u64) -> u64 {
+    match k {
+        K::BigInt | K::Double => raw,
+        K::Int => raw & 0xffff_ffff,
+        K::Bool => raw & 1,
+        _ => unreachable!(),
+    }
+}
+/// the stored bits of a value of kind `k` at offset `o`
+fn stored(d: &[u8], o: usize, k: K) -> u64 {
+    match k {
+        K::BigInt | K::Double => rd_u64(d, o),
+        K::Int => rd_u32(d, o) as u64,
+        K::Bool => d[o] as u64,
+        _ => unreachable!(),
+    }
+}
+/// what a reader must return for the stored bits (Bool: any non-zero byte is TRUE)
+fn decoded(k: K, bits: u64) -> u64 {
+    match k {
+        K::Bool => (bits != 0) as u64,
+        _ => bits,
+    }
+}
+/// bits of a decoded reference (None = wrong variant)
+fn ref_bits(r: &DataTypeRef<'_>, k: K) -> Option<u64> {
+    match (r, k) {
+        (DataTypeRef::BigInt(x), K::BigInt) => Some(x.0 as u64),
+        (DataTypeRef::Int(x), K::Int) => Some(x.0 as u32 as u64),
+        (DataTypeRef::Double(x), K::Double) => Some(x.0.to_bits()),
+        (DataTypeRef::Bool(x), K::Bool) => Some(x.value() as u64),
+        _ => None,
+    }
+}
+
+fn build_stage(k0: K, n0: bool, k1: K, n1: bool) {
+    let mut cols = std::mem::ManuallyDrop::new([col(K::BigInt), col(k0), col(k1)]);
+    let schema = schema_over(&mut cols);
+    let (rk, r0, r1, xmin): (u64, u64, u64, u64) = (kani::any(), kani::any(), kani::any(), kani::any());
+    let v0 = if n0 { DataType::Null } else { mk(k0, r0) };
+    let v1 = if n1 { DataType::Null } else { mk(k1, r1) };
+    let mut vals = [mk(K::BigInt, rk), v0, v1];
+    let row = row_over(&mut vals);
+    let RefLayout { o0, o1, end, .. } = ref_layout(k0, n0, k1, n1);
+    let b = TupleBuilder::from_schema(&schema);
+    kani::cover!(true, "reach");
+    assert!(b.compute_initial_size(&row) == end, "compute_initial_size_is_reference_size");
+    match okf(b.build(&row, xmin)) {
+        Some(t) => {
+            let d = t.effective_data();
+            assert!(d.len() == end, "tuple_len_is_compute_initial_size");
+            assert!(t.xmin() == xmin, "header_xmin_is_creator");
+            assert!(t.xmax().is_none(), "header_xmax_none");
+            assert!(t.version() == 0, "header_version_0");
+            assert!(d[24] == (n0 as u8) | ((n1 as u8) << 1), "null_bitmap_is_pattern");
+            assert!(rd_u64(d, 32) == rk, "key_bytes_at_32");
+            if !n0 {
+                assert!(stored(d, o0, k0) == want(k0, r0), "value0_bytes_at_reference_offset");
+            }
+            if !n1 {
+                assert!(stored(d, o1, k1) == want(k1, r1), "value1_bytes_at_reference_offset");
+            }
+            std::mem::forget(t);
+        }
+        None => assert!(false, "build_fails"),
+    }
+}
+fn parse_stage<const END: usize>(k0: K, n0: bool, k1: K, n1: bool) {
+    let mut cols = std::mem::ManuallyDrop::new([col(K::BigInt), col(k0), col(k1)]);
+    let schema = schema_over(&mut cols);
+    let RefLayout { p0, p1, end, .. } = ref_layout(k0, n0, k1, n1);
+    assert!(end == END, "harness_shape_constant");
+    let mut buf = A8::<END>(kani::any());
+    buf.0[24] = (n0 as u8) | ((n1 as u8) << 1);
+    let d: &[u8] = &buf.0;
+    kani::cover!(true, "reach");
+    let reader = TupleReader::from_schema(&schema);
+    match okf(reader.parse_last_version(d)) {
+        Some(l) => {
+            assert!(l.version_xmin == rd_u64(d, 0), "layout_xmin_is_header_xmin");
+            let xm = rd_u64(d, 8);
+            assert!(l.version_xmax == if xm >= P63 { None } else { Some(xm) }, "layout_xmax_is_header_xmax");
+            assert!(l.version == d[16], "layout_version_is_header_version");
+            assert!(l.null_bitmap_start == 24, "bitmap_start_24");
+            assert!(l.key_offsets.len() == 1 && l.key_offsets[0] == 25, "key_cursor_25");
+            assert!(l.value_offsets.len() == 2, "two_value_offsets");
+            if !n0 {
+                assert!(l.value_offsets[0] == p0, "value0_cursor_is_reference");
+            }
+            if !n1 {
+                assert!(l.value_offsets[1] == p1, "value1_cursor_is_reference");
+            }
+            assert!(l.data_end == end, "data_end_is_reference_end");
+            std::mem::forget(l);
+        }
+        None => assert!(false, "parse_fails"),
+    }
+}
+/// TupleLayout with the given (pre-alignment) cursors; header-derived fields arbitrary
+fn layout_with(kc: usize, p0: usize, p1: usize, data_end: usize) -> TupleLayout {
+    let mut ko = Vec::with_capacity(1);
+    ko.push(kc);
+    let mut vo = Vec::with_capacity(2);
+    vo.push(p0);
+    vo.push(p1);
+    TupleLayout {
+        version_xmin: kani::any(),
+        version_xmax: if kani::any() { Some(kani::any()) } else { None },
+        null_bitmap_start: 24,
+        key_offsets: ko,
+        value_offsets: vo,
+        data_end,
+        version: kani::any(),
+    }
+}
+/// stage C: value_with(i) on ANY 72-byte buffer, ANY bitmap byte, ANY recorded cursors p0,p1 in 40..=56:
+/// NULL iff bit i of the bitmap is set, else exactly the stored bits at align(p_i, kind)
+fn read_stage(k: K) {
+    let mut cols = std::mem::ManuallyDrop::new([col(K::BigInt), col(k), col(k)]);
+    let schema = schema_over(&mut cols);
+    let buf = A8::<72>(kani::any());
+    let d: &[u8] = &buf.0;
+    let (p0, p1, i): (usize, usize, usize) = (kani::any(), kani::any(), kani::any());
+    kani::assume(p0 >= 40 && p0 <= 56 && p1 >= 40 && p1 <= 56 && i < 2);
+    let tr = TupleRef::new(d, layout_with(25, p0, p1, 72));
+    let null = (d[24] >> i) & 1 == 1;
+    let o = al(if i == 0 { p0 } else { p1 }, kinfo(k).0);
+    kani::cover!(true, "reach");
+    kani::cover!(null, "reach_null");
+    match okf(tr.value_with(i, &schema)) {
+        Some(DataTypeRef::Null) => assert!(null, "null_only_if_flagged"),
+        Some(r) => {
+            assert!(!null, "flagged_null_reads_null");
+            assert!(ref_bits(&r, k) == Some(decoded(k, stored(d, o, k))), "value_reads_stored_bits");
+        }
+        None => assert!(false, "value_with_fails"),
+    }
+    assert!(okf(tr.value_with(2, &schema)).is_none(), "value_index_out_of_range_is_err");
+    std::mem::forget(tr);
+}
+macro_rules! hbuild {
+    ($name:ident, $k0:ident, $n0:expr, $k1:ident, $n1:expr) => {
+        #[kani::proof]
+        #[kani::unwind(4)]
+        fn $name() {
+            build_stage(K::$k0, $n0, K::$k1, $n1);
+        }
+    };
+}
+macro_rules! hread {
+    ($name:ident, $k:ident) => {
+        #[kani::proof]
+        #[kani::unwind(3)]
+        fn $name() {
+            read_stage(K::$k);
+        }
+    };
+}
+macro_rules! hparse {
+    ($name:ident, $k0:ident, $n0:expr, $k1:ident, $n1:expr, $end:expr) => {
+        #[kani::proof]
+        #[kani::unwind(3)]
+        fn $name() {
+            parse_stage::<$end>(K::$k0, $n0, K::$k1, $n1);
+        }
+    };
+}
+// @obl harness=c18_build_bigint_int id=C18.build_layout[build:BigInt|BigInt,Int] tier=quick funcs="TupleBuilder::build,TupleBuilder::compute_initial_size,TupleBuilder::write_initial,Row::validate,Payload::alloc_aligned,DataType::write_to" bounds="stage A of 3 (A build -> bytes, B parse_last_version -> cursors = c18_parse_bigint_int, C value_with/key_with -> values = c18_read_*/c18_read_key); 1 key BigInt + values BigInt, Int, no NULL; all value bits and xmin symbolic" unwind=4
+hbuild!(c18_build_bigint_int, BigInt, false, Int, false);
+// @obl harness=c18_parse_bigint_int id=C18.build_layout[parse:BigInt|BigInt,Int] tier=quick funcs="TupleReader::parse_last_version,TupleReader::check_null,TupleHeader::read_from,DataTypeKind::deserialize" bounds="stage B of 3; any 52-byte 8-aligned buffer of the shape's layout (bitmap byte fixed to the NULL pattern, every other byte incl. header symbolic)" unwind=3
+hparse!(c18_parse_bigint_int, BigInt, false, Int, false, 52);
+// @obl harness=c18_build_int_bigint id=C18.build_layout[build:BigInt|Int,BigInt] tier=thorough funcs="TupleBuilder::build,TupleBuilder::compute_initial_size,TupleBuilder::write_initial,Row::validate,Payload::alloc_aligned,DataType::write_to" bounds="stage A of 3 (A build -> bytes, B parse_last_version -> cursors = c18_parse_int_bigint, C value_with/key_with -> values = c18_read_*/c18_read_key); 1 key BigInt + values Int, BigInt, no NULL; all value bits and xmin symbolic" unwind=4
+hbuild!(c18_build_int_bigint, Int, false, BigInt, false);
+// @obl harness=c18_parse_int_bigint id=C18.build_layout[parse:BigInt|Int,BigInt] tier=thorough funcs="TupleReader::parse_last_version,TupleReader::check_null,TupleHeader::read_from,DataTypeKind::deserialize" bounds="stage B of 3; any 56-byte 8-aligned buffer of the shape's layout (bitmap byte fixed to the NULL pattern, every other byte incl. header symbolic)" unwind=3
+hparse!(c18_parse_int_bigint, Int, false, BigInt, false, 56);
+// @obl harness=c18_build_int_int id=C18.build_layout[build:BigInt|Int,Int] tier=thorough funcs="TupleBuilder::build,TupleBuilder::compute_initial_size,TupleBuilder::write_initial,Row::validate,Payload::alloc_aligned,DataType::write_to" bounds="stage A of 3 (A build -> bytes, B parse_last_version -> cursors = c18_parse_int_int, C value_with/key_with -> values = c18_read_*/c18_read_key); 1 key BigInt + values Int, Int, no NULL; all value bits and xmin symbolic" unwind=4
+hbuild!(c18_build_int_int, Int, false, Int, false);
+// @obl harness=c18_parse_int_int id=C18.build_layout[parse:BigInt|Int,Int] tier=thorough funcs="TupleReader::parse_last_version,TupleReader::check_null,TupleHeader::read_from,DataTypeKind::deserialize" bounds="stage B of 3; any 48-byte 8-aligned buffer of the shape's layout (bitmap byte fixed to the NULL pattern, every other byte incl. header symbolic)" unwind=3
+hparse!(c18_parse_int_int, Int, false, Int, false, 48);
+// @obl harness=c18_build_int_double_n0 id=C18.build_layout[build:BigInt|Int/NULL,Double] tier=quick funcs="TupleBuilder::build,TupleBuilder::compute_initial_size,TupleBuilder::write_initial,Row::validate,Payload::alloc_aligned,DataType::write_to" bounds="stage A of 3 (A build -> bytes, B parse_last_version -> cursors = c18_parse_int_double_n0, C value_with/key_with -> values = c18_read_*/c18_read_key); 1 key BigInt + values Int, Double, value0 NULL; all value bits and xmin symbolic" unwind=4
+hbuild!(c18_build_int_double_n0, Int, true, Double, false);
+// @obl harness=c18_parse_int_double_n0 id=C18.build_layout[parse:BigInt|Int/NULL,Double] tier=quick funcs="TupleReader::parse_last_version,TupleReader::check_null,TupleHeader::read_from,DataTypeKind::deserialize" bounds="stage B of 3; any 48-byte 8-aligned buffer of the shape's layout (bitmap byte fixed to the NULL pattern, every other byte incl. header symbolic)" unwind=3
+hparse!(c18_parse_int_double_n0, Int, true, Double, false, 48);
+// @obl harness=c18_build_double_int_n1 id=C18.build_layout[build:BigInt|Double,Int/NULL] tier=thorough funcs="TupleBuilder::build,TupleBuilder::compute_initial_size,TupleBuilder::write_initial,Row::validate,Payload::alloc_aligned,DataType::write_to" bounds="stage A of 3 (A build -> bytes, B parse_last_version -> cursors = c18_parse_double_int_n1, C value_with/key_with -> values = c18_read_*/c18_read_key); 1 key BigInt + values Double, Int, value1 NULL; all value bits and xmin symbolic" unwind=4
+hbuild!(c18_build_double_int_n1, Double, false, Int, true);
+// @obl harness=c18_parse_double_int_n1 id=C18.build_layout[parse:BigInt|Double,Int/NULL] tier=thorough funcs="TupleReader::parse_last_version,TupleReader::check_null,TupleHeader::read_from,DataTypeKind::deserialize" bounds="stage B of 3; any 48-byte 8-aligned buffer of the shape's layout (bitmap byte fixed to the NULL pattern, every other byte incl. header symbolic)" unwind=3
+hparse!(c18_parse_double_int_n1, Double, false, Int, true, 48);
+// @obl harness=c18_build_bigint_double_n01 id=C18.build_layout[build:BigInt|BigInt/NULL,Double/NULL] tier=quick funcs="TupleBuilder::build,TupleBuilder::compute_initial_size,TupleBuilder::write_initial,Row::validate,Payload::alloc_aligned,DataType::write_to" bounds="stage A of 3 (A build -> bytes, B parse_last_version -> cursors = c18_parse_bigint_double_n01, C value_with/key_with -> values = c18_read_*/c18_read_key); 1 key BigInt + values BigInt, Double, both values NULL; all value bits and xmin symbolic" unwind=4
+hbuild!(c18_build_bigint_double_n01, BigInt, true, Double, true);
+// @obl harness=c18_parse_bigint_double_n01 id=C18.build_layout[parse:BigInt|BigInt/NULL,Double/NULL] tier=thorough funcs="TupleReader::parse_last_version,TupleReader::check_null,TupleHeader::read_from,DataTypeKind::deserialize" bounds="stage B of 3; any 40-byte 8-aligned buffer of the shape's layout (bitmap byte fixed to the NULL pattern, every other byte incl. header symbolic)" unwind=3
+hparse!(c18_parse_bigint_double_n01, BigInt, true, Double, true, 40);
+// @obl harness=c18_build_int_bool id=C18.build_layout[build:BigInt|Int,Bool] tier=thorough funcs="TupleBuilder::build,TupleBuilder::compute_initial_size,TupleBuilder::write_initial,Row::validate,Payload::alloc_aligned,DataType::write_to" bounds="stage A of 3 (A build -> bytes, B parse_last_version -> cursors = c18_parse_int_bool, C value_with/key_with -> values = c18_read_*/c18_read_key); 1 key BigInt + values Int, Bool, no NULL; all value bits and xmin symbolic" unwind=4
+hbuild!(c18_build_int_bool, Int, false, Bool, false);
+// @obl harness=c18_parse_int_bool id=C18.build_layout[parse:BigInt|Int,Bool] tier=thorough funcs="TupleReader::parse_last_version,TupleReader::check_null,TupleHeader::read_from,DataTypeKind::deserialize" bounds="stage B of 3; any 45-byte 8-aligned buffer of the shape's layout (bitmap byte fixed to the NULL pattern, every other byte incl. header symbolic)" unwind=3
+hparse!(c18_parse_int_bool, Int, false, Bool, false, 45);
+// @obl harness=c18_build_bool_int_n1 id=C18.build_layout[build:BigInt|Bool,Int/NULL] tier=thorough funcs="TupleBuilder::build,TupleBuilder::compute_initial_size,TupleBuilder::write_initial,Row::validate,Payload::alloc_aligned,DataType::write_to" bounds="stage A of 3 (A build -> bytes, B parse_last_version -> cursors = c18_parse_bool_int_n1, C value_with/key_with -> values = c18_read_*/c18_read_key); 1 key BigInt + values Bool, Int, value1 NULL; all value bits and xmin symbolic" unwind=4
+hbuild!(c18_build_bool_int_n1, Bool, false, Int, true);
+// @obl harness=c18_parse_bool_int_n1 id=C18.build_layout[parse:BigInt|Bool,Int/NULL] tier=thorough funcs="TupleReader::parse_last_version,TupleReader::check_null,TupleHeader::read_from,DataTypeKind::deserialize" bounds="stage B of 3; any 41-byte 8-aligned buffer of the shape's layout (bitmap byte fixed to the NULL pattern, every other byte incl. header symbolic)" unwind=3
+hparse!(c18_parse_bool_int_n1, Bool, false, Int, true, 41);
+// @obl harness=c18_build_bool_int id=C18.build_layout[build:BigInt|Bool,Int] native=c18_bool_column_followed_by_value tier=quick funcs="TupleBuilder::build,TupleBuilder::compute_initial_size,TupleBuilder::write_initial,Row::validate,Payload::alloc_aligned,DataType::write_to" bounds="stage A of 3 (A build -> bytes, B parse_last_version -> cursors = c18_parse_bool_int, C value_with/key_with -> values = c18_read_*/c18_read_key); 1 key BigInt + values Bool, Int, no NULL; all value bits and xmin symbolic" unwind=4
+hbuild!(c18_build_bool_int, Bool, false, Int, false);
+// @obl harness=c18_parse_bool_int id=C18.build_layout[parse:BigInt|Bool,Int] tier=quick funcs="TupleReader::parse_last_version,TupleReader::check_null,TupleHeader::read_from,DataTypeKind::deserialize" bounds="stage B of 3; any 48-byte 8-aligned buffer of the shape's layout (bitmap byte fixed to the NULL pattern, every other byte incl. header symbolic)" unwind=3
+hparse!(c18_parse_bool_int, Bool, false, Int, false, 48);
+// @obl harness=c18_read_bigint id=C18.build_layout[read:BigInt] tier=quick funcs="TupleRef::value_with,TupleRef::is_null_with,TupleRef::null_bitmap_with,TupleReader::check_null,Schema::value,DataTypeKind::deserialize" bounds="stage C of 3; schema BigInt|BigInt,BigInt; any 72-byte 8-aligned buffer, any bitmap byte, value index 0 or 1, any recorded cursors in 40..=56 (covers every layout of the family)" unwind=3
+hread!(c18_read_bigint, BigInt);
+// @obl harness=c18_read_int id=C18.build_layout[read:Int] tier=thorough funcs="TupleRef::value_with,TupleRef::is_null_with,TupleRef::null_bitmap_with,TupleReader::check_null,Schema::value,DataTypeKind::deserialize" bounds="stage C of 3; schema BigInt|Int,Int; any 72-byte 8-aligned buffer, any bitmap byte, value index 0 or 1, any recorded cursors in 40..=56 (covers every layout of the family)" unwind=3
+hread!(c18_read_int, Int);
+// @obl harness=c18_read_double id=C18.build_layout[read:Double] tier=quick funcs="TupleRef::value_with,TupleRef::is_null_with,TupleRef::null_bitmap_with,TupleReader::check_null,Schema::value,DataTypeKind::deserialize" bounds="stage C of 3; schema BigInt|Double,Double; any 72-byte 8-aligned buffer, any bitmap byte, value index 0 or 1, any recorded cursors in 40..=56 (covers every layout of the family)" unwind=3
+hread!(c18_read_double, Double);
+// @obl harness=c18_read_bool id=C18.build_layout[read:Bool] tier=quick funcs="TupleRef::value_with,TupleRef::is_null_with,TupleRef::null_bitmap_with,TupleReader::check_null,Schema::value,DataTypeKind::deserialize" bounds="stage C of 3; schema BigInt|Bool,Bool; any 72-byte 8-aligned buffer, any bitmap byte, value index 0 or 1, any recorded cursors in 40..=56 (covers every layout of the family)" unwind=3
+hread!(c18_read_bool, Bool);
+// @obl harness=c18_read_key id=C18.build_layout[read:key BigInt] tier=quick funcs="TupleRef::key_with,Schema::key,DataTypeKind::deserialize" bounds="stage C of 3; schema BigInt|Int,Int; any 72-byte 8-aligned buffer, any recorded key cursor in 25..=40" unwind=3
+#[kani::proof]
+#[kani::unwind(3)]
+fn c18_read_key() {
+    let mut cols = std::mem::ManuallyDrop::new([col(K::BigInt), col(K::Int), col(K::Int)]);
+    let schema = schema_over(&mut cols);
+    let buf = A8::<72>(kani::any());
+    let d: &[u8] = &buf.0;
+    let kc: usize = kani::any();
+    kani::assume(kc >= 25 && kc <= 40);
+    let tr = TupleRef::new(d, layout_with(kc, 40, 44, 72));
+    kani::cover!(true, "reach");
+    match okf(tr.key_with(0, &schema)) {
+        Some(DataTypeRef::BigInt(x)) => assert!(x.0 as u64 == rd_u64(d, al(kc, 8)), "key_reads_stored_bits"),
+        _ => assert!(false, "key_with_fails"),
+    }
+    assert!(okf(tr.key_with(1, &schema)).is_none(), "key_index_out_of_range_is_err");
+    std::mem::forget(tr);
+}
+// @obl harness=c18_column_datatype id=C18.build_layout[column kind accessor] tier=quick funcs="Column::datatype,DataTypeKind::from_repr" bounds="the four kinds of the family + Blob + Null"
+#[kani::proof]
+#[kani::unwind(3)]
+fn c18_column_datatype() {
+    kani::cover!(true, "reach");
+    assert!(col(K::BigInt).datatype() == K::BigInt, "datatype_is_declared_kind");
+    assert!(col(K::Int).datatype() == K::Int, "datatype_is_declared_kind");
+    assert!(col(K::Double).datatype() == K::Double, "datatype_is_declared_kind");
+    assert!(col(K::Bool).datatype() == K::Bool, "datatype_is_declared_kind");
+    assert!(col(K::Blob).datatype() == K::Blob, "datatype_is_declared_kind");
+    assert!(col(K::Null).datatype() == K::Null, "datatype_is_declared_kind");
+}
+
+// ---------------------------------------------------------------------------------------------
+// One-delta tuples.  Schema Int | Int (1 key, 1 value); no NULL; one delta records the old value.
+// The whole tuple is 64 bytes: CBMC keeps the bytes of an array apart (and structural bytes such as num_changes
+// constant) only up to 64 elements; with the 88-byte tuple of a BigInt|BigInt,BigInt schema the loop bounds read
+// from the tuple become symbolic and vaccum_with / parse_version do not finish.
+// Reference layout, = what add_version_with writes for an update of value 0 (checked by c18_update_bytes):
+//    0..24  TupleHeader (xmin 0..8, xmax 8..16, version 16)   24 bitmap (0)   28..32 key   32..36 value0
+//   40..56  DeltaHeader (xmin 40..48, version 48)             56 num_changes (1)   57 old bitmap (0)
+//   58      field index (0)                                   60..64 old value0 (aligned to 4)
+// ---------------------------------------------------------------------------------------------
+const D1_LEN: usize = 64;
+const D1_LIVE: usize = 40; // delta_start = align8(data_end = 36)
+fn put_u64(d: &mut [u8], o: usize, w: u64) {
+    d[o] = w as u8;
+    d[o + 1] = (w >> 8) as u8;
+    d[o + 2] = (w >> 16) as u8;
+    d[o + 3] = (w >> 24) as u8;
+    d[o + 4] = (w >> 32) as u8;
+    d[o + 5] = (w >> 40) as u8;
+    d[o + 6] = (w >> 48) as u8;
+    d[o + 7] = (w >> 56) as u8;
+}
+fn fresh_tuple(len: usize) -> Tuple {
+    match okf(Payload::alloc_aligned(len)) {
+        Some(data) => Tuple { data },
+        None => {
+            kani::assume(false);
+            unreachable!()
+        }
+    }
+}
+/// the 8 words of any tuple of the one-delta layout: structural bytes fixed, every stamp and value symbolic
+fn any_one_delta() -> [u64; 8] {
+    let mut w: [u64; 8] = kani::any();
+    w[3] &= !0xff; // byte 24: bitmap = 0
+    w[7] = (w[7] & !0xff_ffff) | 1; // byte 56: num_changes = 1, byte 57: old bitmap = 0, byte 58: field index = 0
+    w
+}
+/// the tuple holding these words.  Written byte by byte into a fresh payload (no memcpy: after a memcpy of symbolic
+/// bytes CBMC treats every byte of the destination, structural ones included, as non-constant and the loop
+/// bounds read from the tuple are unwound to the limit); the structural bytes are stored as literal constants.
+fn one_delta_tuple(w: &[u64; 8]) -> Tuple {
+    let mut t = fresh_tuple(D1_LEN);
+    let d = t.effective_data_mut();
+    put_u64(d, 0, w[0]);
+    put_u64(d, 8, w[1]);
+    put_u64(d, 16, w[2]);
+    put_u64(d, 24, w[3]);
+    put_u64(d, 32, w[4]);
+    put_u64(d, 40, w[5]);
+    put_u64(d, 48, w[6]);
+    put_u64(d, 56, w[7]);
+    d[24] = 0;
+    d[56] = 1;
+    d[57] = 0;
+    d[58] = 0;
+    t
+}
+fn live_same(d: &[u8], w: &[u64; 8]) -> bool {
+    rd_u64(d, 0) == w[0] && rd_u64(d, 8) == w[1] && rd_u64(d, 16) == w[2] && rd_u64(d, 24) == w[3] && rd_u64(d, 32) == w[4]
+}
+fn delta_same(d: &[u8], w: &[u64; 8]) -> bool {
+    rd_u64(d, 40) == w[5] && rd_u64(d, 48) == w[6] && rd_u64(d, 56) == w[7]
+}
+/// C13.trim_horizon on a one-delta tuple; `in_gap` selects the region of (delta xmin X0, live xmin X1, horizon h).
+fn trim_stage(in_gap: bool) {
+    let mut cols = std::mem::ManuallyDrop::new([col(K::Int), col(K::Int)]);
+    let schema = schema_over(&mut cols);
+    let w = any_one_delta();
+    let h: u64 = kani::any();
+    let (x1, x0) = (w[0], w[5]);
+    // versions are created in transaction-id order: the creator of the old version is not younger than the updater
+    kani::assume(x0 <= x1);
+    // gap = the old version's creator is below the horizon but the updater is not: some snapshot at or above the
+    // horizon may still have the updater in flight, i.e. needs the old version
+    let gap = x0 < h && h <= x1;
+    kani::assume(gap == in_gap);
+    let mut t = one_delta_tuple(&w);
+    kani::cover!(true, "reach");
+    let freed = okf(t.vaccum_with(h, &schema));
+    let d = t.effective_data();
+    let kept = d.len() == D1_LEN;
+    assert!(freed.is_some(), "vacuum_ok");
+    assert!(d.len() == D1_LEN || d.len() == D1_LIVE, "delta_kept_whole_or_removed_whole");
+    assert!(freed == Some(D1_LEN - d.len()), "freed_is_size_difference");
+    assert!(live_same(d, &w), "live_version_bytes_unchanged");
+    if kept {
+        assert!(delta_same(d, &w), "kept_delta_bytes_unchanged");
+    }
+    // the rule the code implements
+    assert!(kept == (x0 >= h), "delta_kept_iff_its_xmin_at_or_above_horizon");
+    // the rule the property needs: the old version is needed as long as some snapshot at or above the horizon may
+    // not see the creator of the version that replaced it
+    if x1 >= h {
+        assert!(kept, "delta_kept_while_a_snapshot_at_or_above_horizon_may_need_it");
+    } else {
+        assert!(!kept, "delta_removed_when_no_snapshot_can_need_it");
+    }
+    std::mem::forget(t);
+}
+// @obl harness=c13_trim_horizon id=C13.trim_horizon[one delta] tier=quick funcs="Tuple::vaccum_with,TupleReader::parse_last_version,DeltaHeader::read_from,Payload::realloc,TupleReader::check_null,DataTypeKind::deserialize" bounds="schema Int|Int; any 64-byte tuple of the one-delta layout (all stamps and values symbolic), any horizon; delta xmin <= live xmin; EXCLUDES delta xmin < horizon <= live xmin (= c13_trim_horizon_gap)" assume="delta.xmin <= header.xmin (versions are created in transaction-id order)" stubs="Column::datatype -> Int (exact: all columns of the schema are Int, see c18_column_datatype)" unwind=2
+#[kani::proof]
+#[kani::unwind(2)]
+#[kani::stub(crate::schema::base::Column::datatype, stub_dt_int)]
+fn c13_trim_horizon() {
+    trim_stage(false);
+}
+// @obl harness=c13_trim_horizon_gap id=C13.trim_horizon[one delta/old xmin < horizon <= new xmin] tier=off funcs="Tuple::vaccum_with" bounds="as c13_trim_horizon, restricted to delta xmin < horizon <= live xmin" assume="delta.xmin <= header.xmin" stubs="Column::datatype -> Int (exact for this schema)" unwind=2
+#[kani::proof]
+#[kani::unwind(2)]
+#[kani::stub(crate::schema::base::Column::datatype, stub_dt_int)]
+fn c13_trim_horizon_gap() {
+    trim_stage(true);
+}
+// @obl harness=c13_trim_horizon_nostub id=C13.trim_horizon[one delta/real Column::datatype] tier=thorough funcs="Tuple::vaccum_with,TupleReader::parse_last_version,Column::datatype,DataTypeKind::deserialize" bounds="as c13_trim_horizon but without the Column::datatype stub (every kind arm explored)" assume="delta.xmin <= header.xmin" unwind=2
+#[kani::proof]
+#[kani::unwind(2)]
+fn c13_trim_horizon_nostub() {
+    trim_stage(false);
+}
+
+// ---------------------------------------------------------------------------------------------
+// 4. update round trip.  `Tuple::add_version_with` itself cannot be driven by Kani here (see the note at the end of
+// this file); its encoder half (the write helpers it calls, in its order) and its decoder half (parse_version
+// + value_with) are checked against the SAME reference layout (the 64-byte one-delta layout above):
+//   c18_update_write_*  : calculate_new_tuple_size = bytes written; bytes = reference layout
+//   c18_update_read_*   : on ANY tuple of that layout parse_version(old) + value_with give the old value / NULL,
+//                         parse_version(current) + value_with give the new value
+// ---------------------------------------------------------------------------------------------
+fn int_of(x: u32) -> DataType {
+    DataType::Int(Int32(x as i32))
+}
+fn some_usize(r: TupleResult<usize>) -> usize {
+    match okf(r) {
+        Some(c) => c,
+        None => {
+            assert!(false, "write_helper_fails");
+            0
+        }
+    }
+}
+/// the write helpers of add_version_with, called in its order, for: key k, new value `newv`, old value `old` or NULL
+fn update_write_stage(old_null: bool) {
+    let (k, old, newv): (u32, u32, u32) = (kani::any(), kani::any(), kani::any());
+    let old_xmin: u64 = kani::any();
+    let old_version: u8 = kani::any();
+    let old_val = || if old_null { DataType::Null } else { int_of(old) };
+    let keys = [int_of(k)];
+    let new_values = [int_of(newv)];
+    let changed = [(0u8, old_val())];
+    let all_old = [old_val()];
+    let end = if old_null { 59 } else { 64 };
+    kani::cover!(true, "reach");
+    assert!(Tuple::calculate_new_tuple_size(&keys, &new_values, &changed, 0, 1) == end, "calculated_size_is_reference_size");
+    let mut buf = A8::<64>([0xAA; 64]);
+    let c = Tuple::write_null_bitmap(&mut buf.0[..end], TupleHeader::SIZE, &new_values, 1);
+    assert!(c == 25, "bitmap_cursor");
+    let c = some_usize(Tuple::write_data_items(&mut buf.0[..end], c, &keys));
+    assert!(c == 32, "keys_cursor");
+    let c = some_usize(Tuple::write_non_null_items(&mut buf.0[..end], c, &new_values));
+    assert!(c == 36, "values_cursor");
+    let c = some_usize(Tuple::write_delta(&mut buf.0[..end], c, old_version, old_xmin, &changed, &all_old, 1));
+    assert!(c == end, "bytes_written_is_calculated_size");
+    let d = &buf.0;
+    assert!(d[24] == 0, "live_bitmap_no_null");
+    assert!(rd_u32(d, 28) == k, "key_bytes_at_28");
+    assert!(rd_u32(d, 32) == newv, "new_value_bytes_at_32");
+    assert!(rd_u64(d, 40) == old_xmin, "delta_xmin_is_old_version_creator");
+    assert!(d[48] == old_version, "delta_version_is_old_version");
+    assert!(d[56] == 1, "delta_num_changes_1");
+    assert!(d[57] == old_null as u8, "delta_bitmap_is_old_null_pattern");
+    assert!(d[58] == 0, "delta_field_index_0");
+    if !old_null {
+        assert!(rd_u32(d, 60) == old, "old_value_bytes_at_60");
+    }
+}
+// @obl harness=c18_update_write id=C18.update_roundtrip[write:Int|Int] tier=quick funcs="Tuple::calculate_new_tuple_size,Tuple::write_null_bitmap,Tuple::write_data_items,Tuple::write_non_null_items,Tuple::write_delta,DeltaHeader::write_to,TupleBuilder::set_null_bit,DataType::write_to" bounds="encoder half of add_version_with (its write helpers in its order; NOT add_version_with itself); schema Int|Int, one changed value, old and new non-NULL, no older deltas; all values and stamps symbolic" unwind=3
+#[kani::proof]
+#[kani::unwind(3)]
+fn c18_update_write() {
+    update_write_stage(false);
+}
+// @obl harness=c18_update_write_oldnull id=C18.update_roundtrip[write:Int|Int/old NULL] tier=thorough funcs="Tuple::calculate_new_tuple_size,Tuple::write_null_bitmap,Tuple::write_data_items,Tuple::write_non_null_items,Tuple::write_delta" bounds="as c18_update_write with the old value NULL (delta carries only the bitmap)" unwind=3
+#[kani::proof]
+#[kani::unwind(3)]
+fn c18_update_write_oldnull() {
+    update_write_stage(true);
+}
+/// the tuple of the one-delta layout whose old value is NULL (59 bytes: no value bytes after the field index)
+fn one_delta_null_tuple(w: &[u64; 8]) -> Tuple {
+    let mut t = fresh_tuple(59);
+    let d = t.effective_data_mut();
+    put_u64(d, 0, w[0]);
+    put_u64(d, 8, w[1]);
+    put_u64(d, 16, w[2]);
+    put_u64(d, 24, w[3]);
+    put_u64(d, 32, w[4]);
+    put_u64(d, 40, w[5]);
+    put_u64(d, 48, w[6]);
+    d[24] = 0;
+    d[56] = 1;
+    d[57] = 1;
+    d[58] = 0;
+    t
+}
+fn int_ref(r: Option<DataTypeRef<'_>>) -> Option<u32> {
+    match r {
+        Some(DataTypeRef::Int(x)) => Some(x.0 as u32),
+        _ => None,
+    }
+}
+fn update_read_stage(old_null: bool) {
+    let mut cols = std::mem::ManuallyDrop::new([col(K::Int), col(K::Int)]);
+    let schema = schema_over(&mut cols);
+    let w = any_one_delta();
+    let t = if old_null { one_delta_null_tuple(&w) } else { one_delta_tuple(&w) };
+    let d = t.effective_data();
+    let (current, old) = (w[2] as u8, w[6] as u8);
+    kani::assume(old < current);
+    let reader = TupleReader::from_schema(&schema);
+    kani::cover!(true, "reach");
+    match okf(reader.parse_version(d, old)) {
+        Some(l) => {
+            assert!(l.version == old, "old_layout_version");
+            assert!(l.version_xmin == w[5], "old_layout_xmin_is_delta_xmin");
+            assert!(l.version_xmax == Some(w[0]), "old_layout_xmax_is_successor_xmin");
+            assert!(l.null_bitmap_start == 57, "old_layout_bitmap_is_delta_bitmap");
+            assert!(l.key_offsets.len() == 1 && l.key_offsets[0] == 25, "old_layout_key_cursor");
+            let tr = TupleRef::new(d, l);
+            match okf(tr.value_with(0, &schema)) {
+                Some(DataTypeRef::Null) => assert!(old_null, "old_value_null_only_if_flagged"),
+                Some(DataTypeRef::Int(x)) => assert!(!old_null && x.0 as u32 == (w[7] >> 32) as u32, "old_value_reads_delta_bytes"),
+                _ => assert!(false, "old_value_with_fails"),
+            }
+            assert!(int_ref(okf(tr.key_with(0, &schema))) == Some((w[3] >> 32) as u32), "old_version_key_unchanged");
+            std::mem::forget(tr);
+        }
+        None => assert!(false, "parse_old_version_fails"),
+    }
+    std::mem::forget(t);
+}
+fn update_read_live_stage() {
+    let mut cols = std::mem::ManuallyDrop::new([col(K::Int), col(K::Int)]);
+    let schema = schema_over(&mut cols);
+    let w = any_one_delta();
+    let t = one_delta_tuple(&w);
+    let d = t.effective_data();
+    let current = w[2] as u8;
+    let above: u8 = kani::any();
+    kani::assume(above > current);
+    let reader = TupleReader::from_schema(&schema);
+    kani::cover!(true, "reach");
+    match okf(reader.parse_version(d, current)) {
+        Some(l) => {
+            assert!(l.version == current && l.version_xmin == w[0], "live_layout_stamps");
+            assert!(l.null_bitmap_start == 24 && l.data_end == 36, "live_layout_extent");
+            let tr = TupleRef::new(d, l);
+            assert!(int_ref(okf(tr.value_with(0, &schema))) == Some(w[4] as u32), "live_value_reads_new_bytes");
+            std::mem::forget(tr);
+        }
+        None => assert!(false, "parse_current_version_fails"),
+    }
+    assert!(okf(reader.parse_version(d, above)).is_none(), "version_above_current_is_err");
+    std::mem::forget(t);
+}
+// @obl harness=c18_update_read_old id=C18.update_roundtrip[read old:Int|Int] tier=quick funcs="TupleReader::parse_version,TupleReader::parse_last_version,DeltaHeader::read_from,TupleRef::value_with,TupleRef::key_with,TupleReader::check_null" bounds="decoder half; any 64-byte tuple of the one-delta layout (old value non-NULL), delta version < header version; all stamps/values symbolic" stubs="Column::datatype -> Int (exact: all columns of the schema are Int, see c18_column_datatype)" unwind=2
+#[kani::proof]
+#[kani::unwind(2)]
+#[kani::stub(crate::schema::base::Column::datatype, stub_dt_int)]
+fn c18_update_read_old() {
+    update_read_stage(false);
+}
+// @obl harness=c18_update_read_oldnull id=C18.update_roundtrip[read old:Int|Int/old NULL] tier=thorough funcs="TupleReader::parse_version,TupleRef::value_with,TupleReader::check_null" bounds="decoder half; any 59-byte tuple of the one-delta layout whose old value is NULL" stubs="Column::datatype -> Int (exact for this schema)" unwind=2
+#[kani::proof]
+#[kani::unwind(2)]
+#[kani::stub(crate::schema::base::Column::datatype, stub_dt_int)]
+fn c18_update_read_oldnull() {
+    update_read_stage(true);
+}
+// @obl harness=c18_update_read_live id=C18.update_roundtrip[read live:Int|Int] tier=thorough funcs="TupleReader::parse_version,TupleReader::parse_last_version,TupleRef::value_with" bounds="decoder half; any 64-byte tuple of the one-delta layout: target = header version gives the new value, target > header version is an error" stubs="Column::datatype -> Int (exact for this schema)" unwind=2
+#[kani::proof]
+#[kani::unwind(2)]
+#[kani::stub(crate::schema::base::Column::datatype, stub_dt_int)]
+fn c18_update_read_live() {
+    update_read_live_stage();
+}
+// root cause of c18_build_bool_int, isolated: Bool::write_to needs `writer[cursor..]` to be exactly one byte long
+// @obl harness=c18_bool_write_mid_buffer id=C18.value_codec[Bool/not the last byte] native=c18_bool_column_followed_by_value tier=quick funcs="DataType::write_to,Bool::write_to" bounds="8-byte buffer, any cursor < 7 (at least one byte follows the value), both values"
+#[kani::proof]
+#[kani::unwind(3)]
+fn c18_bool_write_mid_buffer() {
+    let v: bool = kani::any();
+    let c: usize = kani::any();
+    kani::assume(c < 7);
+    let mut buf = [0u8; 8];
+    kani::cover!(true, "reach");
+    let r = okf(DataType::Bool(Bool(v)).write_to(&mut buf, c));
+    assert!(r == Some(c + 1) && buf[c] == v as u8, "bool_written_at_cursor");
+}
+
+// ---------------------------------------------------------------------------------------------
+// NOT covered here (measured, not assumed):
+//  * `Tuple::add_version_with` as a whole (C18.update_roundtrip end-to-end, C16.version_bump `old_version + 1`,
+//    the header-xmin stamp of C03.update_stamp).  Two independent blockers under Kani 0.68 / CBMC 6.11:
+//    (1) its `modified: &HashMap<usize, DataType>` argument: one `insert` into a std HashMap (fixed-key RandomState)
+//        does not finish (> 900 s; hashbrown probe loop x 16-lane simd_bitmask model over a 148-byte heap table whose
+//        control bytes CBMC does not keep constant); generic HashMap methods cannot be stubbed (guide, item 8);
+//    (2) the size it passes to `Payload::alloc_aligned` is computed from values that went through `?`
+//        (parse_last_version's cursor, to_owned() of decoded values); CBMC no longer sees them as constants, the
+//        new payload becomes an array of symbolic size and the SAT conversion does not finish (symex 20 s, then
+//        "converting SSA" > 9 min on the probe that replays the first half of the function without the HashMap).
+//    These stay obligations of the MIR->SMT engine (DESIGN: C03.update_stamp, C16.version_bump).  The encoder and
+//    decoder halves are checked separately above (c18_update_write*, c18_update_read*).
+// ---------------------------------------------------------------------------------------------
